@@ -125,8 +125,20 @@ func Check(before *world.World, _ world.Event, pass *world.Pass, after *world.Wo
 				}
 			}
 		}
-		// still probing and reporting
-		if pass.Err != nil || len(pass.Reqs) == 0 {
+		// still probing and reporting: with every listed object there and visible to the cache, a
+		// paused pass has no reason to fail (a crashed pass is the injected restart itself)
+		if pass.Err != nil && !pass.Crashed && len(delegated) == 0 {
+			all := true
+			for _, k := range listed {
+				if o := before.S.Objs[k]; o == nil || !world.CacheVisible(o.Content) {
+					all = false
+				}
+			}
+			if all {
+				bad("paused-pass-fails", "%s %s is paused and all its objects exist, but its pass fails instead of probing and reporting: %v", ownKey.Kind, ownKey.Name, pass.Err)
+			}
+		}
+		if pass.Err != nil || pass.Crashed || len(pass.Reqs) == 0 {
 			return out
 		}
 		last := pass.Reqs[len(pass.Reqs)-1]
@@ -242,10 +254,12 @@ type scenario struct {
 	Pauses  int      `json:"pauses"`
 	Third   int      `json:"thirdParty"`
 	Edits   int      `json:"edits"`
+	// Restarts: budget of operator crashes before request i of a pass (the next pass starts with an empty dynamic cache)
+	Restarts int `json:"restarts"`
 }
 
 func (sc scenario) name() string {
-	return fmt.Sprintf("%s phases=%d delegated=%03b statuses=%d pauses=%d third=%d edits=%d", sc.Kind, sc.N, sc.Mask, len(sc.Classes), sc.Pauses, sc.Third, sc.Edits)
+	return fmt.Sprintf("%s phases=%d delegated=%03b statuses=%d pauses=%d third=%d edits=%d restarts=%d", sc.Kind, sc.N, sc.Mask, len(sc.Classes), sc.Pauses, sc.Third, sc.Edits, sc.Restarts)
 }
 
 func thirdPartyEvents(w *world.World, keys []kmodel.Key) []world.Event {
@@ -299,6 +313,7 @@ func system(sc scenario) *world.System {
 			w.Budget["user-pause"] = sc.Pauses
 			w.Budget["third-party"] = sc.Third
 			w.Budget["edit"] = sc.Edits
+			w.Budget["restart"] = sc.Restarts
 			return w
 		},
 		Events: func(w *world.World) []world.Event {
@@ -310,6 +325,7 @@ func system(sc scenario) *world.System {
 				evs = append(evs, e)
 			}
 			evs = append(evs, osw.WorkloadEvents(w, sc.Classes)...)
+			evs = append(evs, osw.CrashEvents(w)...)
 			if sc.Kind == "objectset" {
 				evs = append(evs, osw.PauseEvents(w, "r1")...)
 				var keys []kmodel.Key
@@ -361,6 +377,8 @@ func scenarios(quick bool) []scenario {
 		{Kind: "objectset", N: 1, Mask: 0b1, Classes: two, Pauses: 2, Third: 2},
 		{Kind: "objectset", N: 2, Mask: 0b10, Classes: two, Pauses: 1, Third: 0},
 		{Kind: "deployment", Classes: []string{"ready"}, Pauses: 2, Edits: 1},
+		{Kind: "objectset", N: 2, Mask: 0, Classes: []string{"ready"}, Pauses: 1, Restarts: 1},
+		{Kind: "objectset", N: 2, Mask: 0b10, Classes: []string{"ready"}, Pauses: 1, Restarts: 1},
 	}
 	if !quick {
 		out = append(out,
@@ -368,6 +386,7 @@ func scenarios(quick bool) []scenario {
 			scenario{Kind: "objectset", N: 2, Mask: 0, Classes: []string{"ready", "notready", "stale"}, Pauses: 3, Third: 2},
 			scenario{Kind: "objectset", N: 3, Mask: 0b010, Classes: two, Pauses: 2, Third: 1},
 			scenario{Kind: "deployment", Classes: two, Pauses: 3, Edits: 1},
+			scenario{Kind: "objectset", N: 2, Mask: 0b01, Classes: two, Pauses: 2, Third: 1, Restarts: 1},
 		)
 	}
 	return out
@@ -375,7 +394,7 @@ func scenarios(quick bool) []scenario {
 
 func run(o checks.Opts) *report.Report {
 	rep := report.New("C09", "bfs")
-	rep.Rule = "explicit-state BFS: reconcile(ObjectSets, ObjectSetPhases, ObjectDeployment), workload status changes, user pause/unpause of the ObjectSet or the ObjectDeployment at any point, template edit T1{a,b}->T2{a,c}, third party deleting / modifying / re-owning managed objects, garbage collector; monitor on every pass of a paused owner and on every ObjectDeployment pass"
+	rep.Rule = "explicit-state BFS: reconcile(ObjectSets, ObjectSetPhases, ObjectDeployment), workload status changes, user pause/unpause of the ObjectSet or the ObjectDeployment at any point, (budgeted) an operator crash before request i of a pass so that the next pass starts with an empty dynamic cache, template edit T1{a,b}->T2{a,c}, third party deleting / modifying / re-owning managed objects, garbage collector; monitor on every pass of a paused owner and on every ObjectDeployment pass"
 	scs := scenarios(o.Quick())
 	rep.Bounds["systems"] = len(scs)
 	for i, sc := range scs {
